@@ -23,7 +23,7 @@ def ghost_env(it, thrower=None):
         if args and isinstance(args[0], Obj) and args[0].cls in ('MSSMNoFV_onshell', 'THDM') and last not in ('calculate_amu', 'calculate_uncertainty'):
             if thrower is not None:
                 thrower(last, args[0])
-            key = 'ghost_' + last
+            key = 'ghost_' + last + str(args[0].f.get('__variant', ''))
             extra = args[1:]
             if extra and all(is_sym(a) or isinstance(a, (int, float)) or hasattr(a, 'numerator') for a in extra):
                 # an overload that takes further numeric arguments is a FUNCTION of them (not the same value as the one-argument API function)
@@ -33,6 +33,11 @@ def ghost_env(it, thrower=None):
             return seen[key]
         return NotImplemented
     it.auto_stub = auto
+    # a method that modifies the (copied) model it is called on makes it a different model: later ghost values carry the variant in their name
+    def to_ytree(it_, a, t):
+        t.f['__variant'] = str(t.f.get('__variant', '')) + '@ytree'
+        return None
+    it.stubs.setdefault('MSSMNoFV_onshell::convert_to_non_tan_beta_resummed', to_ytree)
     return seen
 
 def single_paths(it, thunk):
@@ -94,7 +99,7 @@ def options(it, **kw):
     o.f.update(kw)
     return o
 
-@obligation('C15.dispatch.calculate_amu', fns=[(MAIN, 'calculate_amu')])
+@obligation('C15.dispatch.calculate_amu', fns=[(MAIN, 'calculate_amu')], replay=lambda m_, wd: dispatch_replay(m_, wd))
 def _(ctx):
     """calculate_amu(model, options): MSSM with resummation: 0 / a1L / a1L + a2L for loop order 0 / 1 / >=2; without resummation the
     *_non_tan_beta_resummed functions; THDM: 0 / a1L / a1L + a2L  (enumerated exhaustively over loop orders 0..3 and both flags)"""
@@ -112,7 +117,10 @@ def _(ctx):
                     want = want + z3.Real('ghost_calculate_amu_1loop' + suffix)
                 if lo > 1:
                     want = want + z3.Real('ghost_calculate_amu_2loop' + suffix)
-                ctx.prove('%s.loop%d.resum%d' % (cls, lo, resum), sym.pc, z3real(r) == want, check_vacuity=False)
+                # by definition (src/MSSMNoFV/gm2_1loop.cpp, C15.total.mssm.1loop): the non-resummed one-loop API value IS the one-loop value of the model converted to
+                # tree-level Yukawa couplings; no such identity holds at two loops (the fermion/sfermion part drops the tan(beta) factor as well)
+                defs = [z3.Real('ghost_calculate_amu_1loop@ytree') == z3.Real('ghost_calculate_amu_1loop_non_tan_beta_resummed')]
+                ctx.prove('%s.loop%d.resum%d' % (cls, lo, resum), list(sym.pc) + defs, z3real(r) == want, check_vacuity=False)
                 ctx.merge_rules(it)
 
 DISPATCH_REPLAY = r'''
@@ -146,6 +154,9 @@ int main() {
          const double want_a = (lo > 0 ? gm2calc::calculate_amu_1loop(m) : 0.) + (lo > 1 ? gm2calc::calculate_amu_2loop(m) : 0.);
          cmp("MSSM uncertainty", lo, calculate_uncertainty(m, o), want_u);
          cmp("MSSM amu", lo, calculate_amu(m, o), want_a);
+         gm2calc::Config_options o2 = o; o2.tanb_resummation = false;
+         const double want_n = (lo > 0 ? gm2calc::calculate_amu_1loop_non_tan_beta_resummed(m) : 0.) + (lo > 1 ? gm2calc::calculate_amu_2loop_non_tan_beta_resummed(m) : 0.);
+         cmp("MSSM amu without tan(beta) resummation", lo, calculate_amu(m, o2), want_n);
       }
    }
    std::printf("%d mismatches between the program's dispatch and the library API\\n", bad);
